@@ -3,7 +3,7 @@ import json
 import common
 
 PROPS = "RotoV.Props.C13"
-EXTRA = ["RotoV.Lemmas.Scope", "RotoV.Lemmas.ScopePath", "RotoV.Lemmas.ScopeFrame", "RotoV.Lemmas.ScopeBuild", "RotoV.Lemmas.ScopeDiscovery", "RotoV.Lemmas.ScopeExport", "RotoV.Lemmas.ScopeWitness", "RotoV.Lemmas.ScopeImports", "RotoV.Lemmas.ScopeTermination", "RotoV.Lemmas.ScopeGetFunction", "RotoV.Lemmas.ScopeNoPanic", "RotoV.Model.Scope"]
+EXTRA = ["RotoV.Lemmas.Scope", "RotoV.Lemmas.ScopePath", "RotoV.Lemmas.ScopeFrame", "RotoV.Lemmas.ScopeBuild", "RotoV.Lemmas.ScopeDiscovery", "RotoV.Lemmas.ScopeExport", "RotoV.Lemmas.ScopeWitness", "RotoV.Lemmas.ScopeImports", "RotoV.Lemmas.ScopeTermination", "RotoV.Lemmas.ScopeGetFunction", "RotoV.Lemmas.ScopeNoPanic", "RotoV.Lemmas.ScopeAlias", "RotoV.Model.Scope"]
 
 
 def search(ctx):
